@@ -277,7 +277,7 @@ def readBytes (st : St) (n : String) : St × Blob :=
 /-- rows.go xmlDecoder: memory tier if non-empty, else a reader on the temp file (no promotion) -/
 def stream (st : St) (n : String) : Blob :=
   let c := readXML st n
-  if c.len ≠ 0 then c else (readTemp st n).getD emptyBlob
+  if c.len ≠ 0 then c else (readTemp st n).getD c
 
 /-- second half of sharedStringsLoader: drop the shared-string index file -/
 def sstLoad2 (st : St) : St :=
